@@ -146,6 +146,20 @@ def build():
         for o in reversed(entries(I, I.old_heap)):
             r = z3.If(fld(I, o, "key", I.old_heap).t == kt, fld(I, o, "priority", I.old_heap).t, r)
         return r
+
+    def key_live(I, key):
+        """the stack held a LIVE entry for the key: one with a colour (the transparent leftover of a removal that is still
+        fading out - dest_color None - does not count: its key has been removed by its owner)"""
+        kt = I.force(key).t
+        cs = []
+        for o in entries(I, I.old_heap):
+            dc = I.force(I.read_field(o, "dest_color", heap=I.old_heap))
+            cs.append(z3.And(fld(I, o, "key", I.old_heap).t == kt, z3.Not(I.is_none(dc))))
+        return VBool(z3.Or(cs + [z3.BoolVal(False)]))
+    C.helpers["key_live"] = key_live
+    for demo_, what_ in (("c09_negative_priority_new_key.py", "a command with a negative priority under a new key takes effect"),
+                         ("c09_set_key_while_its_removal_fades.py", "a key can be set again while its faded removal is running")):
+        C.finite_checks.append(common.native_demo_check(demo_, what_))
     C.helpers["stack_unchanged"] = lambda I: VBool(entries(I, I.old_heap) == entries(I, I.heap))
     C.fn("Light._get_priority_from_key", params=dict(key=Str), inline=True)
     C.fn("Light._remove_from_stack_by_key", params=dict(key=Str),
@@ -158,12 +172,15 @@ def build():
          requires=[("S1/S2 hold", "stack_inv()"), ("fade_ms >= 0", "fade_ms >= 0")],
          lets={"k": "key if key is not None else ''"},
          ensures=[("S1/S2 preserved: sorted by (priority, key), one entry per key", "stack_inv()"),
-                  ("a command with lower priority than the existing entry of the same key is ignored",
-                   "implies(priority < old(prio_of_key(k)), stack_unchanged())"),
-                  ("otherwise the entry for this key is (re)placed with the new colour and priority",
-                   "implies(priority >= old(prio_of_key(k)), has_entry(k, priority, color) and others_kept(k) and "
-                   "only_old_or_new(k))")],
-         modifies=["self.stack", "self.stack.*"], raises={}, bounded="stack of 2 existing entries")
+                  ("AS1: a command is ignored only when a LIVE entry with the same key has a higher priority",
+                   "implies(key_live(k) and priority < old(prio_of_key(k)), stack_unchanged())"),
+                  ("AS2: every other command takes effect - under a key the stack does not hold it is added whatever its "
+                   "priority (negative ones included, whether or not the stack is empty), and a key whose removal is still "
+                   "fading out can be set again at any priority: the entry for this key is (re)placed with the new colour "
+                   "and priority",
+                   "implies(not (key_live(k) and priority < old(prio_of_key(k))), has_entry(k, priority, color) and "
+                   "others_kept(k) and only_old_or_new(k))")],
+         modifies=["self.stack", "self.stack.*"], raises={}, bounded="stack of 2 existing entries", shards=6)
     # ---- public removal with fade-out (what a stopping show / player calls)
     C.cls("LightDelay", fields={})
 
